@@ -572,6 +572,18 @@ impl Solver {
     pub fn raw(&mut self, s: &str) {
         self.send(s);
     }
+    /// Value of an integer constant in the current model (call right after a `sat` answer).
+    pub fn get_int(&mut self, name: &str) -> Option<u64> {
+        self.send(&format!("(get-value ({name}))"));
+        let text = self.sync().join(" ");
+        if text.contains("(error") {
+            return None;
+        }
+        let toks: Vec<String> = text.replace('(', " ( ").replace(')', " ) ").split_whitespace().map(|s| s.to_string()).collect();
+        let i = toks.iter().position(|t| t == name)?;
+        let v = toks.get(i + 1)?;
+        v.parse::<u64>().ok()
+    }
 
     fn all_declared_vars(&self) -> Vec<u32> {
         self.scopes.iter().flat_map(|s| s.1.iter().copied()).collect()
